@@ -41,7 +41,13 @@ def run(ctx):
     conds += file_conditions(ctx.tier, carve)
     for name, multi in (("PythonCommentStyle", False), ("CCommentStyle", True), ("HtmlCommentStyle", True), ("LispCommentStyle", False)):
         conds.append(xh.Cond(f"keep {name} multi={multi}: the existing header carries trailing blanks / tabs", "HDR.py", "_keep", {"style": name, "multi": multi, "replace": True, "nlines": 2, "old_kind": "trailing-ws", "carve": carve}, timeout=400 if ctx.tier == "quick" else 2000, twin="_keep_reach"))
-    ctx.functions_encoded = ["reuse.header.find_and_replace_header / add_new_header / _find_first_spdx_comment / _extract_shebang / place_header", "reuse.comment.CommentStyle.comment_at_first_character", "reuse._annotate.add_header_to_file (read newline='', detect_line_endings, normalise, write with newline=line_ending) over an in-memory open", "reuse.extract.detect_line_endings"]
+    for name in ("PythonCommentStyle", "LispCommentStyle", "BatchFileCommentStyle"):
+        conds.append(xh.Cond(f"keep {name}: a code line quotes the text of the (one-line) header that sits further down", "HDR.py", "_keep", {"style": name, "multi": False, "replace": True, "nlines": 3, "kinds": [2, 11, 6], "old_kind": "licence-only", "carve": carve}, timeout=400 if ctx.tier == "quick" else 2000, twin="_keep_reach"))
+    for name in ("CCommentStyle", "HtmlCommentStyle", "CppCommentStyle"):
+        conds.append(xh.Cond(f"keep {name} multi: the closing marker of an existing multi-line header shares its line with code", "HDR.py", "_keep", {"style": name, "multi": True, "replace": True, "nlines": 3, "kinds": [12, 2, 0], "carve": carve}, timeout=400 if ctx.tier == "quick" else 2000, twin="_keep_reach"))
+    for name in ("CCommentStyle", "HtmlCommentStyle", "MlCommentStyle"):
+        conds.append(xh.Cond(f"keep {name} multi: the holder contains the style's comment terminator in the middle of its text (refused, or written as exactly one comment)", "HDR.py", "_keep", {"style": name, "multi": True, "replace": True, "nlines": 2, "request": "terminator-inside", "carve": carve}, timeout=400 if ctx.tier == "quick" else 2000, twin="_keep_reach"))
+    ctx.functions_encoded = ["reuse.comment.CommentStyle._create_comment_multi (premature terminator)", "reuse.header.find_and_replace_header / add_new_header / _find_first_spdx_comment / _extract_shebang / place_header", "reuse.comment.CommentStyle.comment_at_first_character", "reuse._annotate.add_header_to_file (read newline='', detect_line_endings, normalise, write with newline=line_ending) over an in-memory open", "reuse.extract.detect_line_endings"]
     ctx.bounds = dict(hc.BOUNDS, file_level="line ending in {LF, CRLF, CR} x final newline x BOM x 2-item bodies for 4 styles")
     ctx.stubs = hc.STUBS + ["builtins.open inside reuse._annotate replaced by an in-memory file with Python's documented newline translation"]
     ctx.outside = ["files mixing line-ending conventions", "bodies longer than the bound"]
